@@ -70,6 +70,8 @@ def run(prog: Program, rep: Report):
     r4_comparisons(prog, rep, ss)
     r5_arrays(prog, rep, ss)
     r8_input_order(prog, rep, ss)
+    from .ownership import rule_no_class_state
+    rule_no_class_state(prog, rep, "C10.R9", [ss])
     from .memo import public_entry_points, rule_derived_state
     rule_derived_state(prog, rep, "C10.R7", ss, {"starts", "ends", "eq_relation"}, public_entry_points(prog, ss))
     oneshot_rule(prog, rep, "C10.R6", [prog.method(ss, "__init__"), prog.method(ss, "isdisjoint")])
